@@ -304,8 +304,9 @@ func (node *Node) ProcessBlock(ctx context.Context, block wire.Block) error {
 			txsIsNew = append(txsIsNew, false)
 			txsIsSafe = append(txsIsSafe, true)
 
-		} else if !inMemPool {
-			// Not seen yet
+		} else if !inMemPool || node.IsRelevant(ctx, tx) {
+			// Not seen yet, or seen but not recorded as relevant yet (it is still on its way through
+			// the unconfirmed tx processing, or the filter changed since it was seen).
 			isSafe := true
 
 			// Transaction wasn't in the mempool.
